@@ -51,7 +51,11 @@ def check(src, rep):
             n_bad += 1
             rep.violation("N3", "hdlc.HdlcFrameReader.read", "pops-per-step", f"one loop iteration consumes {sp.post.pops} octets: whether the extra octet is available depends on the chunking",
                           m.file, loc(m, sp), witness=f"[{sp.guard_text()}]")
-        if m.feasible(sp) and sp.post.other:
+        if m.feasible(sp) and sp.post.other and all(o.startswith("buffer.") for o in sp.post.other):
+            # a method of the reader's own buffer the contract classifier does not know: the effect stays inside the reader, what it does is not decided here
+            n_bad += 1
+            rep.undecide(f"N2 a step calls a buffer method the contract classifier cannot classify: {sp.post.other} [{sp.guard_text()}]")
+        elif m.feasible(sp) and sp.post.other:
             n_bad += 1
             rep.violation("N2", "hdlc.HdlcFrameReader.read", "other-effect", f"step has an effect outside the reader's per-frame state: {sp.post.other}", m.file, loc(m, sp), witness=f"[{sp.guard_text()}]")
     if not n_bad:
